@@ -4,6 +4,8 @@
 // lookup and jws.ParseEnvelope run for real; json.Unmarshal of the bytes gives an error or an arbitrary envelope object
 // (the model of the C07/C01 harnesses). No path may end in a panic.
 //verif:pkg signature/jws
+// for the bounded inputs of these harnesses no loop of the code under test runs anywhere near 300 iterations: more is a hang
+//verif:terminates github.com/notaryproject/notation-core-go/ 300
 //verif:include ../C07/jws_env.go
 //verif:include ../C07/jws_content.go
 //verif:harness H_C09_jws_parse
